@@ -117,6 +117,14 @@ def run_paths(H, case, prog, selftest_keys=None, raised=None, **kw):
     """iterate feasible paths of prog under the engine; yields (ctx, value).  Engine failures are recorded as
     'not encoded' (never a pass).  The first concrete-following path is differentially self-tested."""
     kw.setdefault('max_paths', 32 if H.quick else 128)
+    ctx_opts = kw.pop('ctx_opts', None)
+    if ctx_opts:
+        _p = prog
+
+        def prog(m, _p=_p):
+            for k_, v_ in ctx_opts.items():
+                setattr(m.ctx, k_, v_)
+            return _p(m)
     try:
         for pr in explore(prog, **kw):
             H.absorb(pr.ctx)
